@@ -953,3 +953,80 @@ func c16IndexToTypeTotal(c *Ctx, rule string) {
 			return ""
 		}())
 }
+
+// c17RequiredCheckedOnEverySuccess: ParamParser returns success only after the loop that rejects a missing
+// `required` key has run — an early successful return (e.g. for an empty section body) accepts a section
+// without its required keys.
+func c17RequiredCheckedOnEverySuccess(c *Ctx, rule string) {
+	f := c.fn(rule, "config", "ParamParser")
+	if f == nil {
+		return
+	}
+	info := f.Info()
+	var loopX ast.Expr
+	ast.Inspect(f.Body, func(m ast.Node) bool {
+		rs, ok := m.(*ast.RangeStmt)
+		if !ok {
+			return true
+		}
+		has := false
+		ast.Inspect(rs.Body, func(k ast.Node) bool {
+			if call, ok := k.(*ast.CallExpr); ok {
+				if _, name, isM := methodCall(call); isM && name == "Lookup" && len(call.Args) == 1 {
+					if tv, ok := info.Types[call.Args[0]]; ok && tv.Value != nil && strings.Contains(tv.Value.ExactString(), "required") {
+						has = true
+					}
+				}
+			}
+			return true
+		})
+		if has {
+			loopX = rs.X
+		}
+		return true
+	})
+	if loopX == nil {
+		c.R.Checkf(rule, "required-keys-checked-before-every-success@ParamParser", c.pos(f.Pos()), false, "no loop testing the `required` tag found in ParamParser: rule lost its anchor")
+		return
+	}
+	isNilRet := func(nd ast.Node) bool {
+		rs, ok := nd.(*ast.ReturnStmt)
+		if !ok || len(rs.Results) != 1 {
+			return false
+		}
+		id, ok := ast.Unparen(rs.Results[0]).(*ast.Ident)
+		return ok && id.Name == "nil"
+	}
+	c.dominated(rule, "required-keys-checked-before-every-success@ParamParser", f, isNilRet, func(nd ast.Node) bool { return nd == ast.Node(loopX) }, "a successful return of ParamParser", "the loop that rejects a missing required key")
+}
+
+// c17IncludeOrderKept: the list of files an include expands to keeps the order in which the user listed the
+// patterns (and the glob order inside one pattern): it is built by appending only, never sorted or compacted.
+func c17IncludeOrderKept(c *Ctx, rule string) {
+	f := c.fn(rule, "config", "unsqueezeEntries")
+	if f == nil {
+		return
+	}
+	info := f.Info()
+	bad := ""
+	core.EachCall(f.Body, core.Deep, func(call *ast.CallExpr) {
+		cal := core.Callee(info, call)
+		if cal == nil || cal.Pkg() == nil {
+			return
+		}
+		p := cal.Pkg().Path()
+		if (p == "sort" || p == "slices") && bad == "" {
+			switch cal.Name() {
+			case "Sort", "SortFunc", "SortStableFunc", "Strings", "Slice", "SliceStable", "Stable", "Compact", "CompactFunc", "Reverse":
+				bad = fmt.Sprintf("%s.%s at %s", p, cal.Name(), c.pos(call.Pos()))
+			}
+		}
+	})
+	c.R.Checkf(rule, "include-expansion-keeps-listed-order@unsqueezeEntries", c.pos(f.Pos()), bad == "",
+		"the expanded include list is neither sorted nor compacted%s", func() string {
+			if bad != "" {
+				return " — VIOLATED: " + bad + ": included files are then merged in lexical instead of listed order (rules and nodes of included files come out permuted)"
+			}
+			return ""
+		}())
+}
